@@ -495,7 +495,7 @@ def case_0d(rng):
     y = _kin_yaml(rng)
     if y:
         c["yaml"] = y
-    return c
+    return su.with_yaml(c, su.solution_yaml(rng))
 
 
 def case_1d(rng, config="shelf"):
@@ -516,7 +516,8 @@ def case_1d(rng, config="shelf"):
         tv = rng.choice([0.02, 0.1, 0.3]) * n * dt / 3600
         c["yaml"] = {"VISF": {"t_vac_start": tv, "t_vac_duration": rng.choice([0.02, 0.05]),
                               "p_vac": rng.choice([50, 100, 300])}}
-    return c
+    su.with_yaml(c, _kin_yaml(rng) if rng.random() < 0.3 else None)
+    return su.with_yaml(c, su.solution_yaml(rng))
 
 
 def case_never(rng, dim):
@@ -532,8 +533,9 @@ def case_2d(rng):
     h = 0.05
     frk, fr = rng.choice([("mid", 0.5), ("early", 1e-4), ("real", None)])
     dt = su.dt_2d_default(h, h)
-    return dict(dim="2D", config="shelf", height=h, diameter=h, k_s0=2000, t_tot=9500 * dt, start=20, stop=-50,
-                rate=0.5, holds=None, cnTemp=None, Frand=fr, frkind=frk)
+    c = dict(dim="2D", config="shelf", height=h, diameter=h, k_s0=2000, t_tot=9500 * dt, start=20, stop=-50,
+             rate=0.5, holds=None, cnTemp=None, Frand=fr, frkind=frk)
+    return su.with_yaml(c, {"solution": {"T_eq": rng.choice([3.82, -1.5])}})
 
 
 def cases_visf_early(tier):
@@ -576,7 +578,8 @@ def cases_nrep():
     h = 0.05
     dt = su.dt_1d_default(h)
     return [dict(dim="1D", config="shelf", height=h, k_s0=2000, t_tot=4900 * dt, start=20, stop=-50, rate=0.5,
-                 holds=None, cnTemp=None, Frand=None, frkind="real", Nrep=2, how="sequential", kind="Nrep=2")]
+                 holds=None, cnTemp=None, Frand=None, frkind="real", Nrep=2, how="sequential", kind="Nrep=2",
+                 yaml={"solution": {"T_eq": 3.82}})]
 
 
 def cases_mode_switch():
